@@ -291,6 +291,7 @@ def run(ctx, name, kind, **kw):
                     jobs.append((fname, f, (seed, n), f(seed, n)))
         S.concurrent_purity(ctx, S.codes_of(util), jobs, rng, kw["runs"])
         S.reentrant_purity(ctx, S.codes_of(util), jobs, rng, max(12, kw["runs"] // 6))
+        S.fault_purity(ctx, S.codes_of(util), jobs, rng, max(12, kw["runs"] // 6))
     elif kind == "shared_prng":
         # one util.PRNG object drawn from by 2 threads (token scheduler, a switch possible at every line of util.py): every byte of the
         # stream goes to exactly one caller - the two outputs are two disjoint subsequences that together make up a prefix of the
